@@ -71,10 +71,11 @@ Record fixes := {
   fx10 : bool;  (* C19-F10: readPEMContents / pemx.ReadPEM reject undecodable trailing data (and a file without any block) *)
   fx12 : bool;  (* C19-F12: updateStatus does not index a missing second part of status.activeIn *)
   fx13 : bool;  (* C19-F13: updateStatus checks the result of errors.As *)
+  fxdup : bool; (* C06-F6 (not a C19 finding): loadRules rejects a rule set in which a rule id occurs twice *)
   fx18 : bool }. (* C18-F2 (not a C19 finding): every fsnotify event re-examines the file *)
 
-Definition no_fixes := {| fx1 := false; fx2 := false; fx3 := false; fx4 := false; fx5 := false; fx6 := false; fx7 := false; fx8 := false; fx9 := false; fx10 := false; fx12 := false; fx13 := false; fx18 := false |}.
-Definition all_fixes := {| fx1 := true; fx2 := true; fx3 := true; fx4 := true; fx5 := true; fx6 := true; fx7 := true; fx8 := true; fx9 := true; fx10 := true; fx12 := true; fx13 := true; fx18 := true |}.
+Definition no_fixes := {| fx1 := false; fx2 := false; fx3 := false; fx4 := false; fx5 := false; fx6 := false; fx7 := false; fx8 := false; fx9 := false; fx10 := false; fx12 := false; fx13 := false; fxdup := false; fx18 := false |}.
+Definition all_fixes := {| fx1 := true; fx2 := true; fx3 := true; fx4 := true; fx5 := true; fx6 := true; fx7 := true; fx8 := true; fx9 := true; fx10 := true; fx12 := true; fx13 := true; fxdup := true; fx18 := true |}.
 
 (** * Key store *)
 
@@ -457,7 +458,8 @@ Fixpoint eh_pipeline (f : fixes) (sts : list step) : res unit :=
   end.
 
 Record rule_def := {
-  r_id : string;
+  r_name : string;              (* the rule's id *)
+  r_id : string;                (* id and content (hash): what the repository state is compared by *)
   r_exec : list step; r_eh : list step;
   r_backend : bool;             (* forward_to present *)
   r_rest : mres }.              (* Hash() and the method/host/path matchers (C03): ok / error / panic, data *)
@@ -473,11 +475,15 @@ Definition create_rule (f : fixes) (proxy has_default : bool) (r : rule_def) : r
   match r_rest r with MOk => Ok tt | MErr => Err | MPanic => Panic SMech end)).
 
 (** ruleSetProcessor.loadRules *)
-Fixpoint load_rules (f : fixes) (proxy has_default : bool) (rs : list rule_def) : res (list string) :=
+(** [seen]: the ids of the rules of this set created so far; an id that occurs again rejects the set
+    (checked rule by rule, before that rule is created) *)
+Fixpoint load_rules (f : fixes) (proxy has_default : bool) (seen : list string) (rs : list rule_def) : res (list string) :=
   match rs with
   | [] => Ok []
-  | r :: rest => bind (create_rule f proxy has_default r)
-                      (fun _ => bind (load_rules f proxy has_default rest) (fun ids => Ok (r_id r :: ids)))
+  | r :: rest =>
+    if fxdup f && existsb (String.eqb (r_name r)) seen then Err else
+    bind (create_rule f proxy has_default r)
+         (fun _ => bind (load_rules f proxy has_default (r_name r :: seen) rest) (fun ids => Ok (r_id r :: ids)))
   end.
 
 (** a rule-set event: config.ParseRules on the bytes, then the processor.
@@ -501,7 +507,7 @@ Definition process (f : fixes) (proxy has_default : bool) (st : list string) (e 
   | PPanics => RsExit SDecode     (* there is no recover around the decoder; fx8 is a pre-check that changes the DATA *)
   | PParsed rs =>
     if negb (String.eqb (ev_version e) "1alpha4") then RsRejected st else   (* isVersionSupported *)
-    match load_rules f proxy has_default rs with
+    match load_rules f proxy has_default [] rs with
     | Ok ids => if ev_repo_ok e then RsApplied ids else RsRejected st
     | Err => RsRejected st
     | Panic s => RsExit s
